@@ -173,20 +173,34 @@ func genC01(c *Ctx) {
 		_ = si
 	}
 	// structured, mostly-valid instances of every format with one field at a time set to the values a parser
-	// could mishandle (own random stream: the mutation stream above does not depend on it)
+	// could mishandle, and containers of several elements one of which is damaged (own random stream: the
+	// mutation stream above does not depend on it)
 	nMut := len(cases)
-	c01Structured(c, NewRng(c.Seed*0x9E3779B97F4A7C15+0xC01), seeds, add)
+	sr := NewRng(c.Seed*0x9E3779B97F4A7C15 + 0xC01)
+	c01Structured(c, sr, seeds, add)
+	c01Containers(c, NewRng(c.Seed*0x9E3779B97F4A7C15+0xC01C), seeds, add)
 	// the cases are written to files one by one (worker and CLI): a memory-backed scratch directory when there is one
 	fast := *c
 	if d, err := os.MkdirTemp("/dev/shm", "verif-c01-"); err == nil {
 		fast.Tmp = d
 		defer os.RemoveAll(d)
 	}
+	// hangs: each costs one deadline; at most 3 are waited for per family of cases and 12 in the whole run
+	guard := newC01Guard(kinds, 3, 12)
 	t0 := time.Now()
-	res := c01RunIsolatedParallel(&fast, cases, 4)
+	res := c01RunWorkers(&fast, cases, guard, 4)
 	fmt.Fprintf(os.Stderr, "c01: %d cases (%d structured) through the isolated worker in %.1fs\n", len(cases), len(cases)-nMut, time.Since(t0).Seconds())
+	ids := make([]int, len(cases)) // number of the inspect case emitted for cases[i]
+	skipped := map[string]int{}
 	for i, r := range res {
-		code := map[string]int{"ok": 0, "panic": 2, "fatal": 3, "timeout": 4, "oom": 5}[r.Outcome]
+		if r.Outcome == "skipped" {
+			skipped[c01Family(kinds[i])]++
+			continue
+		}
+		code, ok := map[string]int{"ok": 0, "panic": 2, "fatal": 3, "timeout": 4, "oom": 5}[r.Outcome]
+		if !ok {
+			code = 9
+		}
 		detail := r.Detail
 		if code == 0 {
 			detail = ""
@@ -195,39 +209,51 @@ func genC01(c *Ctx) {
 			detail = detail[:200]
 		}
 		c.Emit("inspect:"+kinds[i], SL{S(cases[i].Name), SB(cases[i].Data)}, SL{I(code), S(detail)})
+		ids[i] = c.N
 	}
-	// CLI level: exactly one report and exit status 0 (a sample of the same cases)
+	guard.report("isolated worker", skipped)
+	// CLI level: exactly one report and exit status 0.  Of the mutation stream a sample; of the structured and
+	// container cases all, under their own names, many files per invocation.  A case that did not come back from
+	// the library call is not given to the CLI as well (it would cost a second deadline for the same hang).
 	ncli := 150
 	if c.Thorough() {
 		ncli = 3000
 	}
-	dir := filepath.Join(c.Tmp, "c01cli")
-	os.MkdirAll(dir, 0o755)
+	run := make([]bool, len(cases))
 	for k := 0; k < ncli && k < nMut; k++ {
 		idx := (k * 7919) % nMut
-		if noCLI[idx] {
+		run[idx] = !noCLI[idx]
+	}
+	for i := nMut; i < len(cases); i++ {
+		run[i] = true
+	}
+	for i, r := range res {
+		if r.Outcome == "skipped" || r.Outcome == "timeout" {
+			run[i] = false
+		}
+	}
+	t0 = time.Now()
+	skipped = map[string]int{}
+	ncliRun := 0
+	for i, o := range c01CLIRun(&fast, cases, run, guard, 250, 4) {
+		if !run[i] {
 			continue
 		}
-		p := filepath.Join(dir, fmt.Sprintf("f%d", k))
-		os.WriteFile(p, cases[idx].Data, 0o644)
-		out, code := runCLI(c, p)
-		hasPrefix := strings.HasPrefix(string(out), p+": ")
-		c.Emit("cli:"+kinds[idx], SL{S(p), SB(cases[idx].Data)}, SL{I(code), Bool(hasPrefix), Bool(len(out) > 0 && out[len(out)-1] == '\n'), I(len(c01TopLines(out)))})
-		os.Remove(p)
-	}
-	os.RemoveAll(dir)
-	// the structured cases: all of them through the real CLI under their own names, many files per invocation
-	t0 = time.Now()
-	for i, o := range c01CLIBatchesParallel(&fast, cases[nMut:], 250, 4) {
-		// the data is that of the inspect case emitted above for the same input (its number is nMut+i+1 in this
-		// run); it is repeated here only when the observation is not the expected one, for the replay file
-		var data Sx = SL{S("same-data-as-inspect-case"), I(nMut + i + 1)}
-		if o.code != 0 || !o.prefix || !o.newline || o.reports != 1 {
-			data = SB(cases[nMut+i].Data)
+		if o.skipped {
+			skipped[c01Family(kinds[i])]++
+			continue
 		}
-		c.Emit("cli:"+kinds[nMut+i], SL{S(strings.TrimPrefix(o.path, fast.Tmp+"/")), data}, SL{I(o.code), Bool(o.prefix), Bool(o.newline), I(o.reports)})
+		ncliRun++
+		// the data is that of the inspect case of this run named in the input; it is repeated here only when the
+		// observation is not the expected one, for the replay file
+		var data Sx = SL{S("same-data-as-inspect-case"), I(ids[i])}
+		if o.code != 0 || !o.prefix || !o.newline || o.reports != 1 {
+			data = SB(cases[i].Data)
+		}
+		c.Emit("cli:"+kinds[i], SL{S(strings.TrimPrefix(o.path, fast.Tmp+"/")), data}, SL{I(o.code), Bool(o.prefix), Bool(o.newline), I(o.reports)})
 	}
-	fmt.Fprintf(os.Stderr, "c01: %d structured cases through the command-line tool in %.1fs\n", len(cases)-nMut, time.Since(t0).Seconds())
+	guard.report("command-line tool", skipped)
+	fmt.Fprintf(os.Stderr, "c01: %d cases through the command-line tool in %.1fs\n", ncliRun, time.Since(t0).Seconds())
 }
 
 // nestDER wraps NULL in n levels of the given identifier octet with definite DER lengths
